@@ -280,6 +280,12 @@ K_SIG = {
 P("C19", "proof", list(K_SIG.values()), bounds="3 signals, 1 operation after new()",
   outside="real signal delivery, siginfo contents other than the number, multi-threaded processes; real-time signals queueing")
 PROPS["C20"]["k"] = K_TOKEN + [K_SYS["factory"], K_SYS["factory_x"]]
+# round 9: the two cross-property misses left in the seeded matrix (C20-1 under C01, C20-4 under C14) are closed by
+# deciding the token obligations the neighbouring property leans on under that property as well: a factory that repeats
+# a sub-token makes two sub-sources share callbacks' causes (C01); same_source_as is the filter of before_handle_events'
+# iterator and of the synthetic-event routing (C14).
+PROPS["C01"]["k"] = PROPS["C01"]["k"] + [K_SYS["factory_x"], K_TOKEN[7]]
+PROPS["C14"]["k"] = PROPS["C14"]["k"] + [K_TOKEN[7]]
 
 
 # ----------------------------------------------------------------------------- engine M
